@@ -19,7 +19,7 @@ ASSUMPTIONS = [
 ]
 REQUIRED = {"eval.post": 1000, "checked_results": 300}
 MIN_NONTRIVIAL = {"quick": 12, "thorough": 20}
-PLAN = [("init", 700, 9000), ("loop", 700, 9000), ("degenerate", 300, 3000)]
+PLAN = [("init", 700, 9000), ("loop", 700, 9000), ("degenerate", 300, 3000), ("cross", 300, 6000)]
 NEED_STATUS = (0, 1, 2, 3, 4, 5, 6, -1)
 
 
@@ -127,7 +127,11 @@ def make_spec(case):
 
 
 def run_case(case):
-    spec = make_spec(case)
+    if case["fam"] == "cross":
+        spec, _src = e2e.cross_spec(ID, case)
+        spec.setdefault("trigger", "cross/" + _src)
+    else:
+        spec = make_spec(case)
     rec = mrun.run(spec)
     viols, info = oracles.o_c07(rec)
     counts = e2e.base_counts(rec)
